@@ -3,6 +3,32 @@ The Coq twins are in coq/model/Checks.v (wf_manifestb ...)."""
 from .ninja_parse import base_name
 
 USER_RULES = {"BUILD", "LINK", "POST_LINK", "phony"}     # statements whose outputs the user chooses
+DL_RULES = {"GIT_DOWNLOAD", "GIT_PATCH"}                 # statements that fetch/patch a module's sources into <build-dir>/dl
+
+def norm(p):
+    return "/".join(c for c in p.split("/") if c not in (".", ""))
+
+def download_dirs(files, build_dir="build"):
+    """download directories of the project's modules, and those claimed by more than one module definition"""
+    import os
+    seen = {}; clash = set()
+    for fname, docs in files.items():
+        rel = os.path.dirname(fname) or "."
+        for d in docs:
+            for key in ("modules", "apps"):
+                for m in d.get(key) or []:
+                    dl = m.get("download")
+                    if not dl: continue
+                    name = m.get("name") or rel
+                    sd = norm(build_dir + "/dl/" + (dl["dldir"] if dl.get("dldir") else rel + "/" + name))
+                    ident = json_id(m)
+                    if sd in seen and seen[sd] != ident: clash.add(sd)
+                    seen.setdefault(sd, ident)
+    return set(seen), clash
+
+def json_id(m):
+    import json
+    return json.dumps({k: v for k, v in m.items() if k != "context"}, sort_keys=True)
 
 def wf_manifest(parsed, required_outs):
     """-> list of (clause, detail, user_chosen: bool)"""
@@ -28,6 +54,8 @@ def wf_manifest(parsed, required_outs):
     for o, ps in producers.items():
         if len(ps) > 1:
             user = all(base_name(p["rule"]) in USER_RULES for p in ps)
+            if user and all(p["rule"] == "phony" for p in ps) and norm(o).startswith("build/dl/"):
+                user = False      # laze's own phony statements for downloaded sources: one text per file
             bad.append(("output-produced-twice", o, user))
     for o in required_outs:
         if o not in producers:
@@ -38,7 +66,7 @@ def under_builddir(parsed, build_dir="build"):
     """objects (outputs of compile statements) must lie under build-dir/objects"""
     bad = []
     for b in parsed["builds"]:
-        if base_name(b["rule"]) in USER_RULES: continue
+        if base_name(b["rule"]) in USER_RULES or base_name(b["rule"]) in DL_RULES: continue
         if len(b["inputs"]) == 1 and not b["inputs"][0].startswith("/") and ".." not in b["inputs"][0]:
             for o in b["outs"]:
                 if not o.startswith(build_dir + "/objects/"):
@@ -46,7 +74,7 @@ def under_builddir(parsed, build_dir="build"):
     return bad
 
 def compile_stmts(parsed):
-    return [b for b in parsed["builds"] if len(b["inputs"]) == 1 and base_name(b["rule"]) not in ("phony", "LINK", "POST_LINK", "BUILD")]
+    return [b for b in parsed["builds"] if len(b["inputs"]) == 1 and base_name(b["rule"]) not in ("phony", "LINK", "POST_LINK", "BUILD", "GIT_DOWNLOAD", "GIT_PATCH")]
 
 def sharing(parsed, nonshareable_rules, builds):
     """C07 on one file: for compile statements of the same source:
